@@ -204,7 +204,7 @@ def new_atom(ctx, rid, f, cls, rule_pred_term):
     ctx.instance(rid, [f.id, 'store-all'], {'ordering_variables_against_every_atom': oks})
     if not oks:
         ctx.finding(rid, f.id, 'store-all', '%s must create ordering / placement variables between the new atom and every atom already known' % f.name, loc=f.loc)
-    reg = [n for n in f.nodes() if n.get('k') == 'CXXMemberCallExpr' and (n.get('callee_name') or '').endswith('::emplace_back') and canon(n['c'][0]['c'][0], env, subst=False) == cls + '::atoms']
+    reg = [n for n in f.nodes() if n.get('k') == 'CXXMemberCallExpr' and (n.get('callee_name') or '').endswith(('::emplace_back', '::push_back')) and canon(n['c'][0]['c'][0], env, subst=False) == cls + '::atoms']
     if len(reg) != 1:
         ctx.finding(rid, f.id, 'register', '%s must register the atom (with its listener) exactly once' % f.name, loc=f.loc)
     # registration after the store loop (an atom is not ordered against itself)
